@@ -2,6 +2,7 @@
 
 use super::algorithms;
 use super::methods::{CompressionMethod, flags};
+use crate::security::{SecurityLimits, SessionTracker, validate_decompression_operation};
 use crate::{Error, Result};
 
 /// Compress data using the specified compression method
@@ -13,9 +14,22 @@ pub fn compress(data: &[u8], method: u8) -> Result<Vec<u8>> {
     // Check if compression actually reduces size
     let compressed = compress_internal(data, method)?;
 
+    // The reader runs every compressed block through the default security limits
+    // (compression ratio / bomb heuristics). Never emit a block that our own
+    // decompressor would refuse: store such a block uncompressed instead.
+    let readable = validate_decompression_operation(
+        compressed.len() as u64,
+        data.len() as u64,
+        method,
+        None,
+        &SessionTracker::new(),
+        &SecurityLimits::default(),
+    )
+    .is_ok();
+
     // MPQ format requires that compression saves space
     // Account for the method byte prefix when comparing sizes
-    if 1 + compressed.len() >= data.len() {
+    if 1 + compressed.len() >= data.len() || !readable {
         // Return uncompressed data (no compression byte prefix)
         Ok(data.to_vec())
     } else {
